@@ -90,6 +90,39 @@ func c44PathLen(pt int, seg [3]int) int {
 	return 0
 }
 
+// c44ExtLen: bytes taken by the extension headers of chain kind ext (0 none, 1 hop-by-hop,
+// 2 end-to-end, 3 both; each one line long: NextHdr, ExtLen=0, two option bytes).
+func c44ExtLen(ext int) int {
+	return 4 * ((ext & 1) + (ext >> 1 & 1))
+}
+
+// c44SCIONHdrExt is c44SCIONHdr with an extension header chain between the SCION header and the
+// L4 header `l4`. The option bytes stay symbolic.
+func c44SCIONHdrExt(b []byte, dstKind, srcKind, pt int, seg [3]int, ext int, l4 byte) c44Layout {
+	first := l4
+	if ext&2 != 0 {
+		first = c44L4E2E
+	}
+	if ext&1 != 0 {
+		first = c44L4HBH
+	}
+	l := c44SCIONHdr(b, dstKind, srcKind, pt, seg, first)
+	o := l.hdrLen
+	if ext&1 != 0 {
+		b[o], b[o+1] = l4, 0
+		if ext&2 != 0 {
+			b[o] = c44L4E2E
+		}
+		o += 4
+	}
+	if ext&2 != 0 {
+		b[o], b[o+1] = l4, 0
+		o += 4
+	}
+	l.l4Off, l.l4 = o, int(l4)
+	return l
+}
+
 // c44SCIONHdr fixes the steering bytes of the SCION common/address/path headers in b (whose other
 // bytes stay symbolic) and returns the layout. next is the NextHdr value of the common header.
 func c44SCIONHdr(b []byte, dstKind, srcKind, pt int, seg [3]int, next byte) c44Layout {
@@ -226,8 +259,10 @@ func c44Forwarded(e c44Env, in, out []byte, got netip.AddrPort, host []byte, por
 	verif.Assert("forward-only-if-host-equals-outer-destination", c44SameHost(host, e.underlayRaw))
 }
 
+// c44Dropped: Serve sends nothing iff the returned address is invalid (the returned buffer is
+// not looked at in that case).
 func c44Dropped(out []byte, got netip.AddrPort) bool {
-	return out == nil && !got.IsValid()
+	return !got.IsValid()
 }
 
 // ---- UDP -----------------------------------------------------------------------------------------
@@ -238,15 +273,25 @@ func VerifC44UDP() {
 	e := c44DrawEnv()
 	seg := c44Seg()
 	dk, sk, pt := verif.Param("dst"), verif.Param("src"), verif.Param("path")
-	pay := verif.Param("pay")
+	pay, ext := verif.Param("pay"), verif.Param("ext")
 	_, dl := c44HostNibble(dk)
 	_, sl := c44HostNibble(sk)
-	n := c44CmnLen + 16 + dl + sl + c44PathLen(pt, seg) + 8 + pay
+	n := c44CmnLen + 16 + dl + sl + c44PathLen(pt, seg) + c44ExtLen(ext) + 8 + pay
 	buf := verif.NondetBytes("pkt", n)
-	l := c44SCIONHdr(buf, dk, sk, pt, seg, c44L4UDP)
-	// UDP length field: the real length (other values: VerifC44UDPLength)
-	buf[l.l4Off+4] = byte((8 + pay) >> 8)
-	buf[l.l4Off+5] = byte(8 + pay)
+	l := c44SCIONHdrExt(buf, dk, sk, pt, seg, ext, c44L4UDP)
+	// UDP length field (steers slicing of the payload): ulen 0 the real length, 1 zero
+	// ("jumbogram"), 2 smaller than the UDP header, 3 larger than the datagram
+	ulen := 8 + pay
+	switch verif.Param("ulen") {
+	case 1:
+		ulen = 0
+	case 2:
+		ulen = 7
+	case 3:
+		ulen = 8 + pay + 5
+	}
+	buf[l.l4Off+4] = byte(ulen >> 8)
+	buf[l.l4Off+5] = byte(ulen)
 	in := append([]byte(nil), buf...)
 	srv := c44Server(e.isDisp, nil)
 
@@ -257,7 +302,6 @@ func VerifC44UDP() {
 	verif.Assert("input-not-modified", c44EqBytes(buf, in))
 	if !got.IsValid() {
 		verif.Cover("udp-dropped")
-		verif.Assert("dropped-means-no-buffer", out == nil)
 		return
 	}
 	verif.Cover("udp-forwarded")
@@ -308,7 +352,6 @@ func VerifC44UDPSVC() {
 	verif.Assert("no-unrecoverable-error", err == nil)
 	if !got.IsValid() {
 		verif.Cover("svc-dropped")
-		verif.Assert("dropped-means-no-buffer", out == nil)
 		return
 	}
 	verif.Cover("svc-forwarded")
